@@ -159,7 +159,7 @@ func paramCatalogue() []paramCase {
 
 type Case struct {
 	Param    string `json:"param"`
-	Register string `json:"register"` // ok | fail | transport | drop
+	Register string `json:"register"` // ok | fail | fail-nocode | transport | drop
 	Phase2   string `json:"phase2"`   // sequence name
 	Ret      string `json:"ret"`      // user method result: true-nil | false-nil | true-err | false-err
 }
@@ -188,7 +188,7 @@ func Enumerate(thorough bool, yield func(idx int, c Case)) int {
 	rets := []string{"true-nil", "false-nil", "true-err", "false-err"}
 	seqNames := []string{"second-prepare", "commit", "rollback", "commit-commit", "rollback-rollback", "commit-rollback", "other-action", "unknown-resource", "empty-data", "malformed-data", "no-context-key"}
 	for _, p := range paramCatalogue() {
-		for _, reg := range []string{"ok", "fail", "transport", "drop"} {
+		for _, reg := range []string{"ok", "fail", "fail-nocode", "transport", "drop"} {
 			if reg != "ok" {
 				yield(idx, Case{p.Name, reg, "", ""})
 				idx++
@@ -562,7 +562,7 @@ func evalCase(r *rep.Run, c Case, idx int) {
 
 func Run(r *rep.Run) {
 	thorough := r.Tier == "thorough"
-	r.Rule = "parameter catalogue of 15 shapes (nil, scalars, map, tagged/untagged/'-'/empty-tag/unexported fields, nested struct, slice, map, pointers incl. nil, embedded action context by pointer/value/nil, context passed directly, unicode keys/values, 2^53) x registration answer {ok, failure, transport error, no reply} x phase-two sequence {commit, rollback, each twice, commit then rollback, another registered action, unknown resource, empty / malformed / key-less application data} x user result {(true,nil),(false,nil),(true,err),(false,err)}; every message crosses the real frame codec. quick restricts the phase-two x result product to two parameter shapes."
+	r.Rule = "parameter catalogue of 15 shapes (nil, scalars, map, tagged/untagged/'-'/empty-tag/unexported fields, nested struct, slice, map, pointers incl. nil, embedded action context by pointer/value/nil, context passed directly, unicode keys/values, 2^53) x registration answer {ok, failure, failure with error code 0, transport error, no reply} x phase-two sequence {commit, rollback, each twice, commit then rollback, another registered action, unknown resource, empty / malformed / key-less application data} x user result {(true,nil),(false,nil),(true,err),(false,err)}; every message crosses the real frame codec. quick restricts the phase-two x result product to two parameter shapes."
 	r.Assume = []string{"faketc is the coordinator; phase-two requests are delivered one at a time (concurrent delivery is C15)", "time is virtual"}
 	if err := setup(); err != nil {
 		r.Broken = err.Error()
